@@ -26,13 +26,13 @@ def run(ctx):
     ctx.rule('C12.R6', 'serve errors surface as Err (non-zero exit)', floor=1)
     ctx.rule('C12.R7', 'serve: from a decoded request the next frame read is reached only past a proof that the request is not a Put, or past handle_put / a take(len) consumer', floor=1)
     hub = Hub(ctx, F, 'C12.R1')
-    r1(ctx, F, hub)
-    r2(ctx, F)
-    panics.run_entries(ctx, 'C12.R3', [SERVE], 'no undischarged crate-local panic site is reachable from serve()')
-    r4(ctx, F)
-    r5(ctx, F, hub)
-    r6(ctx, F)
-    r7(ctx, F)
+    ctx.attempt(r1, ctx, F, hub)
+    ctx.attempt(r2, ctx, F)
+    ctx.attempt(panics.run_entries, ctx, 'C12.R3', [SERVE], 'no undischarged crate-local panic site is reachable from serve()')
+    ctx.attempt(r4, ctx, F)
+    ctx.attempt(r5, ctx, F, hub)
+    ctx.attempt(r6, ctx, F)
+    ctx.attempt(r7, ctx, F)
 
 
 def r1(ctx, F, hub):
@@ -276,6 +276,20 @@ def r7(ctx, F):
     back to the next read_frame, either the request was shown not to be a Put (a non-Put edge of a switch on the request's
     discriminant inside serve) or the content was consumed (handle_put, decided by R5, or an inline take(put.len) consumer)."""
     from rules.bisync import variant_edges
+    # no read-ahead layer over the connection: a BufReader put around the stream a handler was handed pulls bytes of the
+    # FOLLOWING requests into its buffer and throws them away when it is dropped (a `take(len)` outside it does not help)
+    from callgraph import callgraph_of
+    cg_ = callgraph_of(F)
+    for hb in [F.body(p_) for p_ in sorted(cg_.reach([SERVE])) if F.body(p_) is not None and (F.body(p_).file.endswith('bin/copia/serve.rs') or F.body(p_).file.endswith('bin/copia/wire.rs'))]:
+        hfl = flow_of(hb)
+        for bb_, t_ in hfl.calls(lambda c: c.startswith('std::io::BufReader::<R>::') and c.split('::')[-1] in ('new', 'with_capacity')):
+            src = t_['args'][-1]
+            os_ = [o for o in hfl.origins(src) if o.kind != 'comb']
+            over_stream = bool(os_) and all(o.kind in ('param', 'upvar') for o in os_)
+            if over_stream:
+                ctx.bad('C12.R7', '%s:read-ahead-over-stream' % hb.path.split('::{')[0].split('::')[-1],
+                        'a BufReader is created around the request stream inside a handler: it reads ahead into the bytes of the next requests and drops them with its '
+                        'buffer - after this request the stream is out of step (pipelined / replayed sessions lose requests or are mis-framed)', term_loc(hb, bb_))
     b = F.body(SERVE)
     fl = flow_of(b)
     cfg = fl.cfg
